@@ -99,6 +99,8 @@ func show(sb *strings.Builder, v any) {
 		sb.WriteString("i" + strconv.FormatInt(int64(t), 10))
 	case gen.Int:
 		sb.WriteString("i" + strconv.FormatInt(int64(t), 10))
+	case float32:
+		sb.WriteString("d" + strconv.FormatFloat(float64(t), 'g', -1, 32))
 	case float64:
 		sb.WriteString(fmtFloat(t))
 	case gen.Float:
